@@ -226,8 +226,14 @@ func init() {
 				}
 				pts = append(pts, p)
 			}
+			if t%4 == 2 { // a bigger tree that lost half of its points (dozens of emptied leaves stay behind)
+				for i := 0; i < 150; i++ {
+					pts = append(pts, [2]int{c.rng.Intn(1025), c.rng.Intn(1025)})
+				}
+				npts = len(pts)
+			}
 			var rem []int
-			for i := 0; i < npts/3; i++ {
+			for i := 0; i < npts/3+(t%4/2)*npts/4; i++ {
 				rem = append(rem, 1+c.rng.Intn(npts))
 			}
 			if t%6 == 5 { // a tree that was filled and then emptied completely (the nodes stay behind, without values)
@@ -254,6 +260,7 @@ func init() {
 				ev qtEv
 			}
 			plans := make([]plan, ng)
+			slots := make([]orb.Pointer, ng*4096) // one array of result slots, a region of it per goroutine
 			for g := range plans {
 				qs := &qtQueries{ks: []int{1, 3, 8}, mds: []int{0, 300, 5000}, filters: [][2]int{{1, 0}, {2, g % 2}}, rev: g%3 == 1} // some goroutines ask the filtered questions first
 				for i := 0; i < 6; i++ {
@@ -262,6 +269,9 @@ func init() {
 				for i := 0; i < 3; i++ {
 					x0, y0 := c.rng.Intn(900), c.rng.Intn(900)
 					qs.boxes = append(qs.boxes, [4]int{x0, y0, x0 + c.rng.Intn(400), y0 + c.rng.Intn(400)})
+				}
+				if t%2 == 0 {
+					qs.region = slots[g*4096 : (g+1)*4096]
 				}
 				plans[g].qs = qs
 			}
